@@ -1426,6 +1426,14 @@ class SyncObj(object):
                 for i, consumer in enumerate(self.__consumers):
                     consumer._deserialize(consumersData[i])
 
+            if not clearJournal:
+                # On start the journal may still begin before the snapshot position (the process was
+                # stopped after the dump was written but before the journal was trimmed): only that
+                # head is dropped, the entries after the snapshot position are kept.
+                snapshotEntries = self.__getEntries(data[2][1], 2)
+                if len(snapshotEntries) == 2 and snapshotEntries[0] == data[2] and snapshotEntries[1] == data[1]:
+                    self.__deleteEntriesTo(data[2][1])
+
             if clearJournal or \
                     len(self.__raftLog) < 2 or \
                     self.__raftLog[0] != data[2] or \
